@@ -9,3 +9,9 @@ open O2P.Time
 #print axioms toNanos_exact
 #print axioms formatMicros_injective
 #print axioms toNanosOld_cex
+#print axioms fromNanos_exact
+#print axioms fromNanos_within
+#print axioms fromNanos_order
+#print axioms fromNanos_order_far
+#print axioms pv_otel_pv
+#print axioms otel_pv_otel
